@@ -92,6 +92,10 @@ def gen_echo_program(rng):
                 args[k] = [[rng.choice(prev) for _ in range(rng.randint(0, 2))] for _ in range(rng.randint(1, 2))]
             elif k in ("Tup", "Metadata"):
                 args[k] = {rng.choice(["Color", "Display Name", "k1", "a:b", 'q"uote']): rng.choice(STR_POOL) for _ in range(rng.randint(0, 3))}
+                if args[k] and rng.random() < 0.1:
+                    args[k][sorted(args[k])[0]] = "$none"      # None / a number / a boolean as a value (programming interface only)
+                elif args[k] and rng.random() < 0.1:
+                    args[k][sorted(args[k])[0]] = rng.choice(["$num:7", "$num:2.5", "$true"])
         cmds.append({"result": name, "cmd": "Echo", "args": args})
     return cmds
 
@@ -131,7 +135,8 @@ def echo_ast(cmds, rng):
             elif kind == "list:boolean":
                 val = {"t": "list", "items": [{"t": "ustr", "v": str(x), "cls": "word"} for x in v], "trail": False}
             elif kind == "tuple":
-                val = {"t": "tuple", "pairs": [[{"v": kk, "q": '"'}, {"t": "qstr", "v": vv, "q": '"'}] for kk, vv in v.items()], "trail": False} if v else {"t": "list", "items": [], "trail": False}
+                txt = lambda vv: "None" if vv == "$none" else "True" if vv == "$true" else vv[5:] if isinstance(vv, str) and vv.startswith("$num:") else vv
+                val = {"t": "tuple", "pairs": [[{"v": kk, "q": '"'}, {"t": "qstr", "v": txt(vv), "q": '"'}] for kk, vv in v.items()], "trail": False} if v else {"t": "list", "items": [], "trail": False}
             elif kind == "number" and isinstance(v, str) and v.startswith("$np:"):
                 val = models.number_ast(float(v.split(":")[2]) if ("." in v.split(":")[2] or "e" in v.split(":")[2]) else int(v.split(":")[2]))
             elif kind == "path" and isinstance(v, str) and v.startswith("$path:"):
@@ -170,6 +175,9 @@ def build(case, d):
             for k in ("N", "LN", "P"):
                 if k in args:
                     args[k] = _unspell(args[k])
+            for k in ("Tup", "Metadata"):
+                if k in args:
+                    args[k] = {kk: (None if vv == "$none" else True if vv == "$true" else (float(vv[5:]) if "." in vv else int(vv[5:])) if isinstance(vv, str) and vv.startswith("$num:") else vv) for kk, vv in args[k].items()}
             if case["builder"] == "api-objects":
                 def objs(x):
                     if isinstance(x, list):
